@@ -23,6 +23,7 @@ VARIABLES
     out         \* observable effects of the last step: [ban, drop, sent]
 
 psVars == <<world, cfg, now, peer, tip, tipTD, lastN, out>>
+psCore == <<world, cfg, now, peer, tip, tipTD, lastN>>
 
 PeerNames == cfg.peers
 LastN == cfg.lastN
